@@ -232,7 +232,7 @@ fn directed_far_names() -> Vec<String> {
 }
 
 pub fn run(o: &Opts, rec: &mut Recorder) {
-    rec.rule = "encoder scripts shaped like emit_message_parts (limit, 12-octet header place, question and 1-3 record sections written with emit_iter, items = owner name/type/class/ttl/RDLENGTH place/rdata/back-patch with A, name, MX, TXT, SRV-like, SOA-like and opaque rdata, occasionally an item failing with a non-size error or containing a nested emit_iter), each script run under limits drawn from 0..full length+2 (thorough: for one script in 12 every limit), plus raw primitive scripts under limits 0-90; a case is non-trivial when at least one write was refused for size (MaxBufferSizeExceeded or NotAllRecordsWritten); distinct by case line.  Stage 2: structured messages (tier-1 RDATA types, shared suffixes, 0-12 or 30-90 records per section, EDNS with/without options, TSIG, extended rcodes) given as wire bytes, re-encoded by Message::emit under every limit around each record boundary, the whole tail of the message and fixed/random limits (small messages: every limit), and sent through ResponseHandle::send_response over UDP (advertised payload none/0/300/512/1232/4096/65535) and TCP; deterministic adversarial messages (full candidate table before the cut, cut inside the additionals with OPT appended, complete 511/512/513-octet EDNS responses, empty-RDATA last record); a message case is non-trivial when at least one limit truncated it.  Coverage-driven families: messages built from values with one record that cannot be encoded for a non-size reason, in every section and position, under limits before / inside / behind it and through the server (SERVFAIL fallback of MessageResponse::encode); every public way to build a MessageResponse (new, edns, soa iterator, no_queries, build_no_records, error_msg with plain and extended codes); the whole server path through the real Catalog::handle_request over an in-memory zone (answers of 0-40000 octets x every advertised payload, NXDOMAIN / NODATA / REFUSED / referral / wildcard / ANY, BADVERS, NOTIMP / FORMERR paths, NSID payloads up to 65535 octets, AXFR up to 80000 octets), judged against the same request over TCP".into();
+    rec.rule = "encoder scripts shaped like emit_message_parts (limit, 12-octet header place, question and 1-3 record sections written with emit_iter, items = owner name/type/class/ttl/RDLENGTH place/rdata/back-patch with A, name, MX, TXT, SRV-like, SOA-like and opaque rdata, occasionally an item failing with a non-size error or containing a nested emit_iter), each script run under limits drawn from 0..full length+2 (thorough: for one script in 12 every limit), plus raw primitive scripts under limits 0-90; a case is non-trivial when at least one write was refused for size (MaxBufferSizeExceeded or NotAllRecordsWritten); distinct by case line.  Stage 2: structured messages (tier-1 RDATA types, shared suffixes, 0-12 or 30-90 records per section, EDNS with/without options, TSIG, extended rcodes) given as wire bytes, re-encoded by Message::emit under every limit around each record boundary, the whole tail of the message and fixed/random limits (small messages: every limit), and sent through ResponseHandle::send_response over UDP (advertised payload none/0/300/512/1232/4096/65535) and TCP; deterministic adversarial messages (full candidate table before the cut, cut inside the additionals with OPT appended, complete 511/512/513-octet EDNS responses, empty-RDATA last record); a message case is non-trivial when at least one limit truncated it.  Coverage-driven families: messages built from values with one record that cannot be encoded for a non-size reason, in every section and position, under limits before / inside / behind it and through the server (SERVFAIL fallback of MessageResponse::encode); every public way to build a MessageResponse (new, edns, soa iterator, no_queries, build_no_records, error_msg with plain and extended codes); the whole server path through the real Catalog::handle_request over an in-memory zone (answers of 0-40000 octets x every advertised payload, NXDOMAIN / NODATA / REFUSED / referral / wildcard / ANY, BADVERS, NOTIMP / FORMERR paths, NSID payloads up to 65535 octets, AXFR up to 80000 octets), judged against the same request over TCP; scripts of more than 16 KiB in which names occur for the first time beyond offset 0x3FFF (16360 … 49152) and are used again in later emit_iter sections, nine limits each".into();
     for l in o.pre_lines.clone() {
         exec(&l, rec);
     }
